@@ -58,6 +58,17 @@ def main(tier, seed, extra_programs=None):
     log("[c04] corpus: %d functions, %d abstract states, TLC states %d" % (nfn, nst, st))
     states, trans = st, tr
 
+    # ---- 1b. the same instruction table followed dynamically: every instruction the real interpreter executes for the
+    #          repository's scripts must be fetched at an offset and with a value-stack height that TraceOps.tla derives from
+    #          the previous one (checked and optimised build) - this binds Opcodes.tla's effect table to vm.rs itself
+    import tracevm
+    rep.coverage["traceops_selftest_rejected"] = tracevm.selftest_ops(dev)
+    for bname, binary in (("dev", dev), ("release", build_harness("release"))):
+        cs = [{"id": ["corpus", n], "main": s, "modules": modules, "gc": "default"} for n, s, e in items]
+        np_, nev = tracevm.validate_ops(rep, binary, bname, cs, "the repository's scripts", tag="c04ops")
+        rep.add("traces_validated_by_TraceOps", np_)
+        rep.add("instructions_validated_by_TraceOps", nev)
+
     # ---- 2. programs on, below and above every encoding limit -----------------------------------
     cases = limits.build(dev, tier)
     run_cases = [{"id": i, "main": c["src"], "gc": "never", "stack_mb": 64} for i, c in enumerate(cases)]
